@@ -319,6 +319,30 @@ def gen(_shared):
     f_ = copy.deepcopy(P.find_function(iv_tree, "Interval.in_weeks"))
     text, rett, monad = _tr(cp2, f_, "glue_Interval_in_weeks", {}, "givs", "translated from src/pendulum/interval.py :: Interval.in_weeks")
     out.append(text)
+    # ---------------- Interval.__abs__ / __neg__ (the DELTA of the Interval they build)
+    out.append("(* an existing Interval as far as __abs__ / __neg__ read it: its stored endpoints and _absolute *)\n"
+               "Record giv := mkgiv { gv_start : gobj; gv_end : gobj; gv_abs : bool }.\n")
+    cv = _ctx()
+    cv.kwfuncs["Interval"] = c.kwfuncs["Interval"]
+    cv.attrs.update({"start": ("gv_start", OB), "end": ("gv_end", OB), "_absolute": ("gv_abs", B)})
+    for prop, slot in (("start", "_start"), ("end", "_end")):
+        pf = P.find_function(iv_tree, "Interval." + prop)
+        if [ast.unparse(st) for st in pf.body] != [f"return self.{slot}"] or [ast.unparse(d) for d in pf.decorator_list] != ["property"]:
+            raise P.Unsupported(f"Interval.{prop} is not the property returning self.{slot}")
+
+    class ClsIv(ast.NodeTransformer):
+        def visit_Call(self, node):
+            self.generic_visit(node)
+            if ast.unparse(node.func) == "self.__class__":
+                return ast.copy_location(ast.Call(func=ast.Name(id="Interval", ctx=ast.Load()), args=node.args, keywords=node.keywords), node)
+            return node
+    for meth in ("__abs__", "__neg__"):
+        f_ = ClsIv().visit(copy.deepcopy(P.find_function(iv_tree, "Interval." + meth)))
+        ast.fix_missing_locations(f_)
+        text, rett, monad = _tr(cv, f_, f"glue_Interval_{meth}_delta", {}, "giv",
+                                f"translated from src/pendulum/interval.py :: Interval.{meth} (self.__class__ = Interval); the DELTA of the Interval it builds",
+                                force_result=True)
+        out.append(text)
     return "\n".join(out) + "\n"
 
 
